@@ -13,10 +13,17 @@ Case format (lines of integers; a statement's label is its position among the st
   [5, label, ph, ref, npath, path..]                            bind placeholder ph to node ref's port
   [6, label, a, b]                                              add_rank_dependency(node a, depends_on b)
   [8, k, labels...]                                             k-th statement order
+  [12, cl, child, def, out_ty, has_sc, nsc, sc...]              node statement cl of SUB-GRAPH wiring `child` (a separate
+                                                                Wiring of kind SubGraph, wired after the parent's statements;
+                                                                odd orders wire a child's statements in reverse)
+  [13, cl, child, slot, kind, ref]                              its inputs: kind 0 child-local node ref, 4 declared boundary
+                                                                argument #ref, 5 outer port of PARENT statement ref, captured
+        (lines 12/13 are not modelled in Coq - the decoder skips them; they are judged by the oracle only)
 Implementation output per order k:
   [20,k,code] 0 built, 1 cycle, 2 push-source dependency, 3 unbound placeholder, 4 self dependency,
               6 inadmissible order, 8 rebind, 9 passive marker on every active input, 5 other
   [27,k,creator,active slots...]  active-input list of each compiled native node with inputs
+  [28,k,child,err,cl,rep(cl),...] interning map of each sub-graph wiring
   [23,k,rep(label)...]  label of the statement whose node each node statement was merged into (-1: not a node)
   [21,k,n,creator label of node 0..n-1]     [22,k,src,srckind,tgt,nsp,sp..,ntp,tp..] compiled edges
   [24,k,sink label,t1,v1,...] stream seen by each sink   [25,k,creator,evals,...]   [26,k,1] run error
@@ -104,6 +111,68 @@ def decode(case):
         elif l[0] == 8:
             orders.append(list(l[2:]))
     return prog, orders, end_time, exe
+
+
+def child_lines(case):
+    return [l for l in case if l[0] in (12, 13)]
+
+
+def with_children(case, lines):
+    head = [l for l in case if l[0] not in (8, 12, 13)]
+    return head + [list(l) for l in lines] + [l for l in case if l[0] == 8]
+
+
+def decode_children(case):
+    """{child: {cl: dict(def,out,has_sc,sc,ins=[(kind,ref)])}}"""
+    ch = {}
+    for l in case:
+        if l[0] == 12:
+            ch.setdefault(l[2], {})[l[1]] = {"def": l[3], "out": 2 if l[4] == 2 else 1, "has_sc": l[5], "sc": tuple(l[7:7 + l[6]]), "ins": []}
+    for l in case:
+        if l[0] == 13 and l[2] in ch and l[1] in ch[l[2]]:
+            ch[l[2]][l[1]]["ins"].append((l[4], l[5]))
+    return ch
+
+
+def gen_children(rng, prog):
+    """sub-graph wirings whose statements read declared arguments and captured outer ports: the same
+    definition applied to argument #i and to the captured port that gets capture index i must not merge"""
+    outer = [l for l, st in enumerate(prog) if is_node(st) and st["out"] == 1 and st["kind"] in (0, 1) and not st["uniq"]]
+    if not outer:
+        return []
+    lines = []
+    for child in range(rng.choice([1, 1, 2])):
+        nargs = rng.choice([1, 2, 3])
+        caps = rng.sample(outer, min(len(outer), rng.choice([1, 2, 3])))
+        cl = 0
+        stmts = []
+        for d in rng.sample(range(3, 8), rng.choice([1, 2])):
+            hs, sc = _scalars(rng)
+            for i in range(max(nargs, len(caps))):
+                if i < nargs:
+                    stmts.append((d, hs, sc, [(4, i)]))
+                if i < len(caps):
+                    stmts.append((d, hs, sc, [(5, caps[i])]))
+            if rng.random() < 0.5:
+                stmts.append((d, hs, sc, [(4, 0)]))                  # exact copy: merges
+            if rng.random() < 0.5:
+                stmts.append((d, hs, sc, [(5, caps[0])]))             # exact copy: merges
+            if rng.random() < 0.5:
+                stmts.append((d, hs, sc, [(4, 0), (5, caps[0])]))
+                stmts.append((d, hs, sc, [(5, caps[0]), (4, 0)]))
+        rng.shuffle(stmts)
+        leaves = len(stmts)
+        for (d, hs, sc, ins) in stmts:
+            lines.append([12, cl, child, d, 1, hs, len(sc)] + list(sc))
+            for slot, (kind, ref) in enumerate(ins):
+                lines.append([13, cl, child, slot, kind, ref])
+            cl += 1
+        if leaves >= 2 and rng.random() < 0.6:                        # a consumer of two child-local nodes
+            a, b = rng.sample(range(leaves), 2)
+            lines.append([12, cl, child, 3, 1, 0, 0])
+            lines.append([13, cl, child, 0, 0, a])
+            lines.append([13, cl, child, 1, 0, b])
+    return lines
 
 
 def src_refs(s):
@@ -529,7 +598,10 @@ def gen(rng, tier, prop):
     while len(orders) < n_orders:
         orders.append(random_order(rng, prog))
     exe = 0 if any(st["t"] == "node" and st["kind"] == 3 for st in prog) else 1
-    return encode(prog, orders, end_time=rng.choice([8, 12, 16]), exe=exe)
+    case = encode(prog, orders, end_time=rng.choice([8, 12, 16]), exe=exe)
+    if rng.random() < (0.2 if prop == "C06" else 0.08):
+        case = with_children(case, gen_children(rng, prog))
+    return case
 
 
 # --------------------------------------------------------------------------- reading the observation
@@ -562,6 +634,8 @@ def parse_out(out):
             d["runerr"] = 1
         elif l[0] == 27:
             d.setdefault("active", {})[l[2]] = tuple(l[3:])
+        elif l[0] == 28:
+            d.setdefault("children", {})[l[2]] = (l[3], dict(zip(l[4::2], l[5::2])))
     return res
 
 
@@ -672,11 +746,30 @@ def oracle(prop, case, out):
     for (a, b) in sorted(marker_pairs):
         fails.append(("passive_marker_not_in_key",
                       "statements %d and %d differ in the passive marker of an input but share one node" % (a, b)))
+    children = decode_children(case)
     for k in range(len(orders)):
         o = obs.get(k)
         if o is None or o["code"] is None:
             fails.append(("crash", "no verdict for order %d" % k))
             continue
+        # ---- C06 inside a sub-graph wiring: statements that share a node are configured identically, where a
+        # declared argument and a captured outer port are different inputs whatever their ordinal
+        prep = list(o["reps"] or [])      # captured outer ports are compared by the parent NODE they belong to
+        for child, (err, crep) in (o.get("children") or {}).items():
+            sts = children.get(child, {})
+            if err:
+                fails.append(("merge", "order %d: sub-graph wiring %d failed" % (k, child)))
+                continue
+
+            def ccfg(c):
+                st = sts[c]
+                return (st["def"], st["out"], st["has_sc"], st["sc"] if st["has_sc"] else (),
+                        tuple((kind, crep.get(ref, -7) if kind == 0 else
+                               (prep[ref] if kind == 5 and 0 <= ref < len(prep) else ref)) for kind, ref in st["ins"]))
+            for c, r in crep.items():
+                if c in sts and r in sts and r != c and ccfg(c) != ccfg(r):
+                    fails.append(("merge", "order %d: sub-graph wiring %d: statements %d and %d differ (inputs %s vs %s; 4 = declared "
+                                           "argument, 5 = captured outer port) but share one node" % (k, child, c, r, sts[c]["ins"], sts[r]["ins"])))
         code, reps = o["code"], o["reps"]
         verdicts.add(code)
         if code == 5:
@@ -804,6 +897,8 @@ def stats(case, out):
          "with_forward_reference": int(any(is_node(st) and any(i["rank"] and src_refs(i["src"])[1] for i in st["ins"]) for st in prog)),
          "with_passive_marker": int(any(is_node(st) and any(i.get("passive") for i in st["ins"]) for st in prog)),
          "with_passive_marker_pair": int(bool(passive_pairs(prog))),
+         "with_subgraph_wiring": int(any(l[0] == 12 for l in case)),
+         "subgraph_statements": sum(1 for l in case if l[0] == 12),
          "executed": 0}
     for k, o in obs.items():
         c = o["code"]
@@ -815,6 +910,8 @@ def stats(case, out):
             s["compiled_nodes"] = len(o["nodes"])
             s["compiled_edges"] = len(o["edges"])
             s["backward_edges"] = sum(1 for (a, _, b, _) in o["edges"] if a >= b)
+        if k == 0 and o.get("children"):
+            s["subgraph_merged_statements"] = sum(1 for (_, cr) in o["children"].values() for c, r in cr.items() if c != r)
         if o["evals"] is not None:
             s["executed"] += 1
             if k == 0:
@@ -853,24 +950,43 @@ def drop_stmt(prog, orders, i):
 
 
 def shrink(case):
+    for c in _shrink(case):
+        yield c
+
+
+def _shrink(case):
     prog, orders, end_time, exe = decode(case)
+    kids = child_lines(case)
+    enc = lambda *a: with_children(encode(*a), kids)
+    if kids:
+        yield encode(prog, orders, end_time, exe)                       # no sub-graph wirings
+        ids = sorted({(l[2], l[1]) for l in kids if l[0] == 12})
+        for (ch, cl) in reversed(ids):                                   # drop one child statement nobody reads
+            if not any(l[0] == 13 and l[2] == ch and l[4] == 0 and l[5] == cl for l in kids):
+                yield with_children(encode(prog, orders, end_time, exe), [l for l in kids if not (l[2] == ch and l[1] == cl)])
     if len(orders) > 2:
         for k in range(1, len(orders)):
-            yield encode(prog, orders[:k] + orders[k + 1:], end_time, exe)
+            yield enc(prog, orders[:k] + orders[k + 1:], end_time, exe)
     for i in range(len(prog) - 1, -1, -1):
+        if any(l[0] == 13 and l[4] == 5 and l[5] == i for l in kids):
+            continue
         r = drop_stmt(prog, orders, i)
         if r is not None:
-            yield encode(r[0], r[1], end_time, exe)
+            k2 = [list(l) for l in kids]
+            for l in k2:
+                if l[0] == 13 and l[4] == 5 and l[5] > i:
+                    l[5] -= 1
+            yield with_children(encode(r[0], r[1], end_time, exe), k2)
     for i, st in enumerate(prog):
         if st["t"] == "node" and len(st["ins"]) > 1 and st["kind"] != 5:
             for k in range(len(st["ins"])):
                 p2 = [dict(x) for x in prog]
                 p2[i] = dict(st)
                 p2[i]["ins"] = [dict(x, tp=()) for j, x in enumerate(st["ins"]) if j != k]
-                yield encode(p2, orders, end_time, exe)
+                yield enc(p2, orders, end_time, exe)
         if st["t"] == "node" and st["sc"] and any(st["sc"]):
             p2 = [dict(x) for x in prog]
             p2[i] = dict(st, sc=tuple(0 for _ in st["sc"]))
-            yield encode(p2, orders, end_time, exe)
+            yield enc(p2, orders, end_time, exe)
     if exe:
-        yield encode(prog, orders, end_time, 0)
+        yield enc(prog, orders, end_time, 0)
